@@ -76,6 +76,7 @@ type FuncSpec struct {
 	Implement string   // "implements <functype>"
 	NoPanic   bool
 	CrashInv  []Clause
+	CrashEns  []Clause // what holds if the process dies inside this function (durable state only)
 	Terminates bool
 	EntryGhost []GhostUpdate
 	Props     []string // default property tags for every clause
@@ -123,7 +124,7 @@ type ghostField struct {
 	Type    string
 }
 
-var directiveRe = regexp.MustCompile(`^(func|iface|functype|requires|ensures|modifies|use|loop|invariant|decreases|pred|fun|axiom|lemma|ghost|assumed|trusted|pure|at|implements|crashinv|props|const|terminates|nopanic)\b`)
+var directiveRe = regexp.MustCompile(`^(func|iface|functype|requires|ensures|modifies|use|loop|invariant|decreases|pred|fun|axiom|lemma|ghost|assumed|trusted|pure|at|implements|crashinv|crashensures|props|const|terminates|nopanic)\b`)
 
 type rawLine struct {
 	text string
@@ -338,7 +339,7 @@ func (w *World) loadSpecFile(path, pkg string) error {
 				return fail("implements outside func")
 			}
 			cur.Implement = rest
-		case "requires", "ensures", "crashinv":
+		case "requires", "ensures", "crashinv", "crashensures":
 			if cur == nil {
 				return fail("%s outside func", kw)
 			}
@@ -353,6 +354,8 @@ func (w *World) loadSpecFile(path, pkg string) error {
 				cur.Ensures = append(cur.Ensures, c)
 			case "crashinv":
 				cur.CrashInv = append(cur.CrashInv, c)
+			case "crashensures":
+				cur.CrashEns = append(cur.CrashEns, c)
 			}
 		case "modifies":
 			if cur == nil {
